@@ -57,11 +57,12 @@ impl Table {
         }
         json!(out)
     }
-    pub fn route_literal(&self, segs: &Value, pbase: usize) -> String {
+    /// param names differ from item to item (`tag`), as they do in real applications
+    pub fn route_literal(&self, segs: &Value, pbase: usize, tag: &str) -> String {
         let mut r = String::new(); let mut np = pbase;
         for sg in arr(segs) {
             r.push('/');
-            if s(&sg["k"]) == "P" { np += 1; r.push_str(&format!(":p{np}")) } else { r.push_str(&self.chars(&sg["s"])) }
+            if s(&sg["k"]) == "P" { np += 1; r.push_str(&format!(":{tag}p{np}")) } else { r.push_str(&self.chars(&sg["s"])) }
         }
         if r.is_empty() { "/".into() } else { r }
     }
@@ -101,7 +102,8 @@ pub fn build_app(apps: &[Value], idx: usize, t: &Table, early: i64, pbase: usize
         _ => Ohkami::with((fangs[0].clone(), fangs[1].clone(), fangs[2].clone(), fangs[3].clone()), ()),
     };
     for it in arr(&app["items"]) {
-        let lit = util::leak(t.route_literal(&it["segs"], pbase));
+        let tag = if s(&it["t"]) == "route" { format!("h{}", i(&it["h"])) } else { format!("m{}", i(&it["app"])) };
+        let lit = util::leak(t.route_literal(&it["segs"], pbase, &tag));
         if s(&it["t"]) == "route" {
             let local: Vec<TraceFang> = arr(&it["local"]).iter().map(|f| TraceFang { id: i(f), early: i(f) == early }).collect();
             let hs = with_methods(v::handler_set(lit), arr(&it["methods"]), pbase + nparams(&it["segs"]), i(&it["h"]), &local);
